@@ -767,6 +767,15 @@ func runC03(c *Ctx) {
 					if b, isB := constBool(o.V); isB && b {
 						continue
 					}
+					if bo, isBo := o.V.(*ssa.BinOp); isBo {
+						// one arm of `hasKey && len(value) > 0`
+						if l := asCall(bo.X); l != nil && calleeName(&l.Call) == "builtin len" && sameVal(l.Call.Args[0], r.Results[0]) {
+							k, isK := constInt(bo.Y)
+							if isK && (bo.Op == token.GTR && k == 0 || bo.Op == token.NEQ && k == 0 || bo.Op == token.GEQ && k == 1) {
+								continue
+							}
+						}
+					}
 					okc = false
 				}
 			}
